@@ -46,7 +46,7 @@ REQUIRED = dict(monitors=['online:variance-not-negative', 'alias:variance-equals
                          'alias:same-objects-two-accumulators', 'alias:one-buffer-overwritten',
                          'alias:several-accumulators-other-weights', 'values:tight-spread',
                          'weights-handed-over:as-they-are-numpy', 'weights-handed-over:plus-1e-300-numpy', 'values:agree-to-rounding',
-                         'values:zero-weight-samples-elsewhere-weighted-ones-identical', 'mp:samples-a-hair-apart'])
+                         'values:zero-weight-samples-elsewhere-weighted-ones-identical', 'mp:samples-a-hair-apart', 'history:hundreds-of-samples-on-a-rank'])
 TOL = 1e-10
 EPS = float(np.finfo(float).eps)
 _state = {}
@@ -229,6 +229,11 @@ def wl_online(ctx, rng):
         n = nranks + 1
     else:
         n = int(rng.integers(2, 200))
+    if ctx.case['index'] % 40 == 7:
+        # a long chain: hundreds to thousands of samples on a rank (what a real posterior has), unevenly split
+        nranks = int(rng.choice([2, 3, 4, 8]))
+        n = int(rng.integers(600, 3000))
+        ctx.observe('history:hundreds-of-samples-on-a-rank')
     w, wcls = draw_weights(rng, n)
     ctx.observe('weights:' + wcls)
     vec = rng.random() < 0.5
